@@ -215,6 +215,9 @@ def _KE():
 
 
 PAIRS = [(4, k) for k in range(1, 7)] + [(5, k) for k in range(1, 5)] + [(21, k) for k in range(1, 4)] + [(3, 3)]     # larger k: bounded (solver time grows with k)
+from contracts import thorough as _thorough      # noqa: E402
+if _thorough():
+    PAIRS += [(4, 7), (5, 5), (2, 4), (3, 5)]
 
 
 def _setup_kmer(A, k):
@@ -275,6 +278,8 @@ def _KEnc():
 
 
 TS_PAIRS = [(4, 1), (4, 3), (4, 6), (2, 3), (3, 1), (3, 3), (5, 3), (21, 2)]
+if _thorough():
+    TS_PAIRS += [(4, 8), (2, 6), (3, 5), (5, 5), (21, 4)]
 
 
 def _mk_to_string(A, k):
